@@ -639,8 +639,9 @@ LZD_PROPS = ("ZeroReadIsNoop", "DistCheckStep")
 
 
 def lzdecoder_stage(ctx, tier, target_cfgs):
-    """LzDecoder.tla: exhaustive design check on a 4-cell ring; behaviours sampled by TLC on rings of the real minimum
-    size (symbols AND read sizes chosen by TLC) replayed strictly on the real readers of every std configuration."""
+    """LzDecoder.tla: exhaustive design check on a 4-cell ring; behaviours sampled by TLC (symbols AND read sizes chosen
+    by TLC) replayed strictly on the real readers of every std configuration: on a 16-cell model ring scaled by 256 to
+    the real minimum ring of LZMA2Reader (wraps), and unscaled on rings larger than the stream (small read sizes)."""
     quick = tier == "quick"
     base = {"B": "4", "ReadSizes": "{0,1,2,3,5}", "Lens": "{2,3,4}", "ChunkSizes": "{1,2,3,5}", "SizeKnown": "FALSE",
             "AllowBad": "TRUE", "KeepHist": "FALSE"}
@@ -654,23 +655,25 @@ def lzdecoder_stage(ctx, tier, target_cfgs):
         d, mod, cfg = core.write_model("LzDecoder", c, invariants=LZD_INV, properties=LZD_PROPS)
         r = ctx.tlc(mod, cfg, name=f"LzDecoder {name}", cwd=d, workers=6, timeout=1500)
         ctx.require_coverage(r, ["Lit", "Match", "Flush", "RepeatPending", "BadDistAny"], f"LzDecoder {name}")
-    sims = [("lz2", "lzma2", {"B": "16", "MaxStream": "44", "AllowBad": "TRUE"}),
-            ("lz1m", "lzma", {"B": "64", "MaxStream": "40", "SizeKnown": "FALSE", "AllowBad": "FALSE"})]
+    # (name, kind, constants, scale): the model ring must equal the real ring (LZMA2Reader: >= 4 KiB = 16 x 256) or be
+    # larger than the whole stream (then neither ring ever wraps or saturates `full`)
+    sims = [("lz2w", "lzma2", {"B": "16", "MaxStream": "44", "AllowBad": "TRUE"}, 256),
+            ("lz2", "lzma2", {"B": "64", "MaxStream": "44", "AllowBad": "TRUE"}, 1),
+            ("lz1m", "lzma", {"B": "64", "MaxStream": "40", "SizeKnown": "FALSE", "AllowBad": "FALSE"}, 1)]
     if not quick:
-        sims += [("lz2v", "lzma2", {"B": "16", "MaxStream": "44", "AllowBad": "FALSE"}),
-                 ("lz1k", "lzma", {"B": "64", "MaxStream": "40", "SizeKnown": "TRUE", "AllowBad": "TRUE"}),
-                 ("lz2big", "lzma2", {"B": "64", "MaxStream": "150", "AllowBad": "FALSE"})]
-    nb = 60 if quick else 600
+        sims += [("lz2wv", "lzma2", {"B": "16", "MaxStream": "60", "AllowBad": "FALSE"}, 256),
+                 ("lz1k", "lzma", {"B": "64", "MaxStream": "40", "SizeKnown": "TRUE", "AllowBad": "TRUE"}, 1)]
+    nb = 40 if quick else 400
     all_runs = []
     tot = {"behaviours": 0, "calls": 0, "zero_reads": 0, "split_matches": 0, "wraps": 0, "bad_dist": 0, "mismatch": 0}
-    for name, kind, extra in sims:
+    for name, kind, extra, scale in sims:
         c = {"Kind": f'"{kind}"', "ReadSizes": "{0,1,2,3,5,7,20,50}", "Lens": "{2,3,5,9,17,18}", "ChunkSizes": "{1,2,3,5,8,13,21}",
              "SizeKnown": "FALSE", "KeepHist": "TRUE"}
         c.update(extra)
         hs = symlib.lzdecoder_behaviours(ctx, c, nb, ctx.seed % 100000 + len(name), name=name)
         for cfg_name, (features, target) in target_cfgs.items():
             st = symlib.lzdecoder_replay(ctx, kind, c, nb, 0, name=f"{name}@{cfg_name}", sig_base={"build": cfg_name},
-                                         features=features, target=target, behaviours=hs)
+                                         features=features, target=target, behaviours=hs, scale=scale)
             runs = st.pop("events_runs")
             ctx.add("evaluations", st["behaviours"])
             if cfg_name == "default":
